@@ -216,6 +216,37 @@ func (tb *TermBuilder) pieces(t *Term) ([]*Term, bool) {
 		}
 		flush()
 		return out, true
+	case t.isCall("strings.Join") && len(t.Args) == 2 && t.Args[0].Op == "slice" && len(t.Args[0].Args) > 0:
+		// Join of a literal list: elements interleaved with the separator
+		inner := t.Args[0].Args[0]
+		parts := []*Term{inner}
+		if inner.Op == "anyof" {
+			parts = inner.Args
+		}
+		elems := map[int]*Term{}
+		for _, p := range parts {
+			var i int
+			if p.Op != "partial" {
+				return []*Term{t}, true
+			}
+			if _, err := sscanIndex(p.Name, &i); err != nil || elems[i] != nil {
+				return []*Term{t}, true
+			}
+			elems[i] = p.Args[0]
+		}
+		var out []*Term
+		for i := 0; i < len(elems); i++ {
+			e := elems[i]
+			if e == nil {
+				return []*Term{t}, true
+			}
+			if i > 0 {
+				out = append(out, t.Args[1])
+			}
+			sub, _ := tb.pieces(e)
+			out = append(out, sub...)
+		}
+		return out, true
 	case t.isCall("(*strings.Builder).String") || t.isCall("(*bytes.Buffer).String") || t.isCall("(*bytes.Buffer).Bytes"):
 		if a, ok := t.Args[0].V.(*ssa.Alloc); ok && a.Parent() == tb.F {
 			ws := bufWrites(tb.F, tb, t.Args[0].String())
